@@ -159,6 +159,9 @@ func (w *World) exchange(entity Entity, add []ID, rem []ID, relations []relation
 
 	mask := oldArchetype.mask
 	newTable, newArch, relRemoved := w.storage.findOrCreateTable(oldTable, add, rem, relations, &mask)
+	// Register the targets before any callback runs: the relations slice is a buffer of the caller
+	// that a (rejected) nested call from inside a callback may overwrite.
+	w.storage.registerTargets(relations)
 
 	// Get the old table and archetype again, as the pointer may have changed.
 	oldTable = &w.storage.tables[oldTable.id]
@@ -195,8 +198,6 @@ func (w *World) exchange(entity Entity, add []ID, rem []ID, relations []relation
 		w.storage.entities[swapEntity.id].row = index.row
 	}
 	w.storage.entities[entity.id] = entityIndex{table: newTable.id, row: newIndex}
-
-	w.storage.registerTargets(relations)
 
 	return &oldArchetype.mask, &newArch.mask
 }
@@ -235,6 +236,9 @@ func (w *World) exchangeBatch(batch *Batch, add []ID, rem []ID,
 		})
 	}
 	w.storage.slices.tables = tables[:0]
+	// Register the targets before any callback runs: the relations slice is a buffer of the caller
+	// that a (rejected) nested call from inside a callback may overwrite.
+	w.storage.registerTargets(relations)
 
 	if len(rem) > 0 {
 		if w.storage.observers.HasObservers(OnRemoveComponents) {
@@ -272,7 +276,7 @@ func (w *World) exchangeBatch(batch *Batch, add []ID, rem []ID,
 	for i := range batchTables {
 		batch := &batchTables[i]
 
-		start, len := w.exchangeTable(batch.oldTable, batch.newTable, relations)
+		start, len := w.exchangeTable(batch.oldTable, batch.newTable)
 		if fn != nil {
 			fn(batch.newTable, start, len)
 		}
@@ -318,7 +322,7 @@ func (w *World) exchangeBatch(batch *Batch, add []ID, rem []ID,
 
 // exchangeTable performs batch-exchange on a single table.
 // Returns the start index of the entities in the new table and number of entities.
-func (w *World) exchangeTable(oldTableID, newTableID tableID, relations []relationID) (uint32, uint32) {
+func (w *World) exchangeTable(oldTableID, newTableID tableID) (uint32, uint32) {
 	oldTable := &w.storage.tables[oldTableID]
 
 	oldArchetype := &w.storage.archetypes[oldTable.archetype]
@@ -351,7 +355,6 @@ func (w *World) exchangeTable(oldTableID, newTableID tableID, relations []relati
 	}
 
 	oldTable.Reset()
-	w.storage.registerTargets(relations)
 
 	return startIdx, count
 }
@@ -388,6 +391,9 @@ func (w *World) setRelations(entity Entity, relations []relationID) {
 		// Get the old table again, as pointers may have changed.
 		oldTable = &w.storage.tables[oldTable.id]
 	}
+	// Register the targets before any callback runs: the relations slice is a buffer of the caller
+	// that a (rejected) nested call from inside a callback may overwrite.
+	w.storage.registerTargets(relations)
 
 	if w.storage.observers.HasObservers(OnRemoveRelations) {
 		lock := w.lock()
@@ -407,8 +413,6 @@ func (w *World) setRelations(entity Entity, relations []relationID) {
 		w.storage.entities[swapEntity.id].row = index.row
 	}
 	w.storage.entities[entity.id] = entityIndex{table: newTable.id, row: newIndex}
-
-	w.storage.registerTargets(relations)
 
 	if w.storage.observers.HasObservers(OnAddRelations) {
 		newMask := &w.storage.archetypes[newTable.archetype].mask
@@ -443,6 +447,9 @@ func (w *World) setRelationsBatch(batch *Batch, relations []relationID, fn func(
 		moves = append(moves, move)
 	}
 	w.storage.slices.tables = tables[:0]
+	// Register the targets before any callback runs: the relations slice is a buffer of the caller
+	// that a (rejected) nested call from inside a callback may overwrite.
+	w.storage.registerTargets(relations)
 
 	// All removal events are emitted before the entire batch.
 	if w.storage.observers.HasObservers(OnRemoveRelations) {
@@ -470,8 +477,6 @@ func (w *World) setRelationsBatch(batch *Batch, relations []relationID, fn func(
 			fn(move.newTable, int(move.start), int(move.len))
 		}
 	}
-
-	w.storage.registerTargets(relations)
 
 	// All addition events are emitted after the entire batch.
 	if w.storage.observers.HasObservers(OnAddRelations) {
